@@ -94,6 +94,8 @@ def supply(text, form):
 def run_text(r, text, groups, form='str', space=''):
     """parse once per group, render once per option set; record failures on r"""
     from mistletoe import Document
+    if r.extra.get('timeouts', 0) >= 6:
+        raise _TooManyTimeouts()
     r.states += 1
     for name, ckw, optlist in groups:
         core.fresh()
@@ -108,7 +110,8 @@ def run_text(r, text, groups, form='str', space=''):
             r.transitions += len(optlist)
             r.fail(dict(text=text, renderer=name, ctor=ckw, opts=optlist[0], form=form), 'timeout:parse:' + name, '> 10 s')
             _exit(rend)
-            continue
+            r.extra['timeouts'] = r.extra.get('timeouts', 0) + 1
+            return          # one timeout per input is enough; the other configurations parse the same text
         except BaseException as e:
             if isinstance(e, (KeyboardInterrupt, SystemExit)):
                 raise
@@ -153,8 +156,20 @@ def _exit(rend):
             pass
 
 
+class _TooManyTimeouts(Exception):
+    pass
+
+
 def run_job(job):
     r = core.Result()
+    try:
+        _run_job(r, job)
+    except _TooManyTimeouts:
+        r.capped = 'job %r stopped after 6 inputs that ran into the 10 s timer' % (job[:3],)
+    return r
+
+
+def _run_job(r, job):
     kind = job[0]
     if kind == 'words':
         _, name, prefix, k, full = job
@@ -171,7 +186,7 @@ def run_job(job):
             run_text(r, '', configs.GROUPS, space='lines')
             for form in ('list', 'file'):
                 run_text(r, '', configs.GROUPS, form=form, space='lines')
-            return r
+            return
         for n in range(1, k + 1):
             for rest in itertools.product(L, repeat=n - 1):
                 ws = (L[first],) + rest
@@ -224,7 +239,7 @@ def run_job(job):
                     text = u + w * n + v
                     run_text(r, text, configs.GROUPS_CORE if n > 32 else configs.GROUPS, space='pump')
         r.sample(dict(space='pump', u=u, w='> ', n=100, v=''), 1)
-    return r
+    return
 
 
 def replay(case):
